@@ -153,7 +153,32 @@ def first_diff(a, b):
     return None
 
 
+class NoResult(BaseException):
+    pass
+
+
+ORACLE_SECONDS = 45
+
+
 def oracle(spec, terms, shape):
+    """the oracle under a time limit: building and evaluating a tree of n nodes takes time linear in n (milliseconds for the deepest
+    chains used here); a tree whose position is not delivered within the limit has no position to compare"""
+    import signal
+
+    def on_alarm(signum, frame):
+        raise NoResult()
+    old = signal.signal(signal.SIGALRM, on_alarm)
+    signal.alarm(ORACLE_SECONDS)
+    try:
+        return oracle_untimed(spec, terms, shape)
+    except NoResult:
+        return 'no-position-delivered: building the tree and reading the position of its %d levels did not finish within %d s' % (spec_depth(spec), ORACLE_SECONDS), []
+    finally:
+        signal.alarm(0)
+        signal.signal(signal.SIGALRM, old)
+
+
+def oracle_untimed(spec, terms, shape):
     """-> (message or None, node samples).  Runs the real Node.position on every sub-tree."""
     root = build(spec, terms)
     before = serialise(root)
@@ -529,7 +554,11 @@ def main():
             shape = DIMS[(res['cases'] + mi) % len(DIMS)]
             terms = terminal_sets(r, shape, n_terms, mode)
             enc_before = enc_terms(terms)      # recorded before evaluating: an in-place mutant rewrites `terms`
+            if tag.startswith('deep') and res.get('deep_gave_up'):
+                continue                       # one undelivered deep position is the finding; the deeper ones would only wait as long
             msg, samples = oracle(sp, terms, shape)
+            if msg and msg.startswith('no-position-delivered'):
+                res['deep_gave_up'] = True
             res['cases'] += 1
             res['nodes'] += len(samples)
             k = '%s/%s' % (tag, mode)
